@@ -1,4 +1,12 @@
-"""C34 — utility containers behave as their abstract models (problog/util.py)."""
+"""C34 — utility containers behave as their abstract models (problog/util.py).
+
+Three containers, three hand models (coq/theories/C34/*Model.v), one Props.v.
+For every container the tie runs identical random operation histories through
+  (a) the real class in problog.util,
+  (b) a Python reference specification written here (set / list / dict-of-keys) -> the judge,
+  (c) the Coq model (vm_compute inside coqc) -> correspondence,
+and compares every return value and the full observable state after every step.
+"""
 import vf
 
 META = {
@@ -17,6 +25,42 @@ From PL.C34 Require Import BitVectorModel.
 Import ListNotations.
 Open Scope N_scope.
 """
+
+OS_HEADER = """From Coq Require Import NArith List Bool.
+From PL.C34 Require Import OrderedSetModel.
+Import ListNotations.
+"""
+
+UH_HEADER = """From Coq Require Import NArith List Bool.
+From PL.C34 Require Import UHeapModel.
+Import ListNotations.
+"""
+
+
+def shrink_ops(ops, bad):
+    """Greedy delta-debugging: drop ops while `bad(ops)` stays true."""
+    ops = list(ops)
+    i = 0
+    while i < len(ops):
+        cand = ops[:i] + ops[i + 1:]
+        if cand and bad(cand):
+            ops = cand
+        else:
+            i += 1
+    return ops
+
+
+def tolist(x):
+    """tuples -> lists (JSON replays give lists back)."""
+    if isinstance(x, (list, tuple)):
+        return [tolist(y) for y in x]
+    return x
+
+
+def totuple(x):
+    if isinstance(x, (list, tuple)):
+        return tuple(totuple(y) for y in x)
+    return x
 
 
 # ------------------------------------------------------------------ BitVector
@@ -63,6 +107,33 @@ def bv_impl_trace(ops):
     return trace
 
 
+def bv_membership_ok(ops):
+    """`in` (truthiness of __contains__) against iteration on the final state, probed around block boundaries."""
+    from problog.util import BitVector
+    regs = [BitVector(), BitVector(), BitVector()]
+    for o in ops:
+        if o[0] == "add":
+            regs[o[1]].add(o[2])
+        elif o[0] == "and":
+            regs[o[1]] = regs[o[2]] & regs[o[3]]
+        elif o[0] == "or":
+            regs[o[1]] = regs[o[2]] | regs[o[3]]
+        elif o[0] == "iand":
+            regs[o[1]] &= regs[o[2]]
+        elif o[0] == "ior":
+            regs[o[1]] |= regs[o[2]]
+    for r in regs:
+        members = set(r)
+        probe = set(members)
+        for m in list(members)[:8]:
+            probe.update((m + 1, m + 32, max(0, m - 1), max(0, m - 32)))
+        probe.update((0, 31, 32, 5000))
+        for x in probe:
+            if bool(x in r) != (x in members):
+                return False
+    return True
+
+
 def bv_spec_trace(ops):
     """The property's own reference: python sets."""
     regs = [set(), set(), set()]
@@ -88,32 +159,19 @@ def bv_ops_coq(ops):
         if o[0] == "add":
             out.append("OAdd %d %s" % (o[1], vf.coq_N(o[2])))
         elif o[0] == "and":
-            out.append("OAnd %d %d %d" % o[1:])
+            out.append("OAnd %d %d %d" % tuple(o[1:]))
         elif o[0] == "or":
-            out.append("OOr %d %d %d" % o[1:])
+            out.append("OOr %d %d %d" % tuple(o[1:]))
         elif o[0] == "iand":
-            out.append("OIand %d %d" % o[1:])
+            out.append("OIand %d %d" % tuple(o[1:]))
         else:
-            out.append("OIor %d %d" % o[1:])
+            out.append("OIor %d %d" % tuple(o[1:]))
     return vf.coq_list(out)
 
 
 def bv_trace_coq(trace):
     return vf.coq_list([vf.coq_list(["(%s, %s, %s)" % (vf.coq_list([vf.coq_N(x) for x in it]), vf.coq_N(ln), vf.coq_bool(b))
                                      for (it, ln, b) in step]) for step in trace])
-
-
-def shrink_ops(ops, bad):
-    """Greedy delta-debugging: drop ops while `bad(ops)` stays true."""
-    ops = list(ops)
-    i = 0
-    while i < len(ops):
-        cand = ops[:i] + ops[i + 1:]
-        if cand and bad(cand):
-            ops = cand
-        else:
-            i += 1
-    return ops
 
 
 def classify_bv(ops, impl, spec):
@@ -128,32 +186,45 @@ def classify_bv(ops, impl, spec):
     return None
 
 
-def run_bitvector(ctx):
+def bv_check_one(ctx, ops):
+    """Judge one history against the set reference.  Returns the impl trace or None."""
+    try:
+        impl = bv_impl_trace(ops)
+    except Exception as e:  # any exception of the container is a violation
+        ctx.violation("BitVector raised %r" % (e,), {"container": "BitVector", "ops": tolist(ops)}, klass=None)
+        return None
+    spec = bv_spec_trace(ops)
+    if impl != spec:
+        small = shrink_ops(ops, lambda c: bv_impl_trace(c) != bv_spec_trace(c))
+        ctx.violation("BitVector differs from the set model on history %r: got %r, set model says %r"
+                      % (small, bv_impl_trace(small)[-1], bv_spec_trace(small)[-1]),
+                      {"container": "BitVector", "ops": tolist(small), "impl": bv_impl_trace(small), "spec": bv_spec_trace(small)},
+                      klass=classify_bv(small, bv_impl_trace(small), bv_spec_trace(small)))
+    elif not bv_membership_ok(ops):
+        small = shrink_ops(ops, lambda c: not bv_membership_ok(c))
+        ctx.violation("BitVector `in` disagrees with iteration after history %r" % (small,),
+                      {"container": "BitVector", "ops": tolist(small)}, klass=None)
+    return impl
+
+
+def run_bitvector(ctx, histories=None):
     nseq = ctx.n(400, 20000)
     cases, metas = [], []
-    for k in range(nseq):
-        ops = gen_bv_ops(ctx.rng, ctx.rng.choice([3, 6, 12, 25]))
-        try:
-            impl = bv_impl_trace(ops)
-        except Exception as e:  # any exception of the container is a violation
-            ctx.violation("BitVector raised %r" % (e,), {"container": "BitVector", "ops": ops}, klass=None)
+    if histories is None:
+        histories = [gen_bv_ops(ctx.rng, ctx.rng.choice([3, 6, 12, 25])) for _ in range(nseq)]
+    for ops in histories:
+        impl = bv_check_one(ctx, ops)
+        if impl is None:
             continue
-        spec = bv_spec_trace(ops)
         nontrivial = any(o[0] in ("iand", "and", "or", "ior") for o in ops) and any(len(r[0]) > 1 for r in impl[-1])
-        ctx.case(("bv", tuple(ops)), nontrivial, sample={"container": "BitVector", "ops": ops, "final": impl[-1]})
+        ctx.case(("bv", totuple(ops)), nontrivial, sample={"container": "BitVector", "ops": tolist(ops), "final": impl[-1]})
         ctx.count("bv_ops", len(ops))
         for o in ops:
             ctx.count("bv_" + o[0])
-        if impl != spec:
-            small = shrink_ops(ops, lambda c: bv_impl_trace(c) != bv_spec_trace(c))
-            ctx.violation("BitVector differs from the set model on history %r: got %r, set model says %r"
-                          % (small, bv_impl_trace(small)[-1], bv_spec_trace(small)[-1]),
-                          {"container": "BitVector", "ops": small, "impl": bv_impl_trace(small), "spec": bv_spec_trace(small)},
-                          klass=classify_bv(small, bv_impl_trace(small), bv_spec_trace(small)))
         cases.append("trace_eqb (bv_trace bv_iand [[]; []; []] %s) %s" % (bv_ops_coq(ops), bv_trace_coq(impl)))
         metas.append(ops)
     try:
-        bad = ctx.coq_failing(HEADER, cases, name="bv")
+        bad = ctx.coq_failing(HEADER, cases, name="bv", shard=60)
     except RuntimeError as e:
         ctx.broken.append("correspondence:BitVector model does not evaluate")
         ctx.notes.append(str(e))
@@ -163,11 +234,534 @@ def run_bitvector(ctx):
         ctx.broken.append("correspondence:BitVectorModel vs problog.util.BitVector on ops %r" % (metas[i],))
 
 
+# ------------------------------------------------------------------ OrderedSet
+OS_UNIVERSE = list(range(6))
+
+
+def gen_os_ops(rng, n):
+    ops = []
+    r3 = lambda: rng.randrange(3)
+    key = lambda: rng.choice(OS_UNIVERSE)
+    klist = lambda: [key() for _ in range(rng.randrange(0, 5))]
+    for _ in range(n):
+        k = rng.random()
+        if k < 0.30:
+            ops.append(("add", r3(), key()))
+        elif k < 0.42:
+            ops.append(("discard", r3(), key()))
+        elif k < 0.52:
+            ops.append(("pop", r3(), rng.random() < 0.5))
+        elif k < 0.57:
+            ops.append(("contains", r3(), key()))
+        elif k < 0.63:
+            ops.append(("ior", r3(), r3()))
+        elif k < 0.67:
+            ops.append(("iorlist", r3(), klist()))
+        elif k < 0.72:
+            ops.append(("fromlist", r3(), klist()))
+        elif k < 0.77:
+            ops.append(("or", r3(), r3(), r3()))
+        elif k < 0.82:
+            ops.append(("and", r3(), r3(), r3()))
+        elif k < 0.87:
+            ops.append(("sub", r3(), r3(), r3()))
+        elif k < 0.89:
+            ops.append(("subset", r3(), r3(), klist()))
+        elif k < 0.92:
+            ops.append(("isub", r3(), r3()))
+        elif k < 0.95:
+            ops.append(("iand", r3(), r3()))
+        elif k < 0.98:
+            ops.append(("eq", r3(), r3()))
+        else:
+            ops.append(("eqset", r3(), klist()))
+    return ops
+
+
+def os_impl_trace(ops):
+    """-> list of (out, [(list(s), list(reversed(s)), len(s))...]) ; out in None / bool / int / 'KeyError'.
+    Also checks on the real object: membership of every universe key agrees with iteration,
+    and the dict order of s.map is the iteration order (a fact the Coq theorem states)."""
+    from problog.util import OrderedSet
+    regs = [OrderedSet(), OrderedSet(), OrderedSet()]
+    trace = []
+    for o in ops:
+        out = None
+        t = o[0]
+        if t == "add":
+            out = regs[o[1]].add(o[2])
+        elif t == "discard":
+            out = regs[o[1]].discard(o[2])
+        elif t == "pop":
+            try:
+                out = regs[o[1]].pop(last=bool(o[2]))
+            except KeyError:
+                out = "KeyError"
+        elif t == "contains":
+            out = (o[2] in regs[o[1]])
+        elif t == "ior":
+            r = regs[o[1]]
+            r |= regs[o[2]]
+            regs[o[1]] = r
+        elif t == "iorlist":
+            r = regs[o[1]]
+            r |= list(o[2])
+            regs[o[1]] = r
+        elif t == "fromlist":
+            regs[o[1]] = OrderedSet(list(o[2]))
+        elif t == "or":
+            regs[o[1]] = regs[o[2]] | regs[o[3]]
+        elif t == "and":
+            regs[o[1]] = regs[o[2]] & regs[o[3]]
+        elif t == "sub":
+            regs[o[1]] = regs[o[2]] - regs[o[3]]
+        elif t == "subset":
+            regs[o[1]] = regs[o[2]] - set(o[3])
+        elif t == "isub":
+            r = regs[o[1]]
+            r -= regs[o[2]]
+            regs[o[1]] = r
+        elif t == "iand":
+            r = regs[o[1]]
+            r &= regs[o[2]]
+            regs[o[1]] = r
+        elif t == "eq":
+            out = (regs[o[1]] == regs[o[2]])
+        elif t == "eqset":
+            out = (regs[o[1]] == set(o[2]))
+        else:
+            raise ValueError(t)
+        obs = []
+        for s in regs:
+            if not isinstance(s, OrderedSet):
+                raise TypeError("result is %s, not OrderedSet" % type(s).__name__)
+            it = list(s)
+            for k in OS_UNIVERSE:
+                if (k in s) != (k in it):
+                    raise AssertionError("membership of %r disagrees with iteration %r" % (k, it))
+            if list(s.map) != it:
+                raise AssertionError("dict order %r differs from ring order %r" % (list(s.map), it))
+            obs.append((it, list(reversed(s)), len(s)))
+        trace.append((out, obs))
+    return trace
+
+
+def os_spec_trace(ops):
+    """The property's own reference: a duplicate-free python list in first-insertion order."""
+    regs = [[], [], []]
+
+    def add(l, k):
+        return l if k in l else l + [k]
+
+    def addall(l, ks):
+        for k in ks:
+            l = add(l, k)
+        return l
+    trace = []
+    for o in ops:
+        out = None
+        t = o[0]
+        if t == "add":
+            regs[o[1]] = add(regs[o[1]], o[2])
+        elif t == "discard":
+            regs[o[1]] = [x for x in regs[o[1]] if x != o[2]]
+        elif t == "pop":
+            l = regs[o[1]]
+            if not l:
+                out = "KeyError"
+            elif o[2]:
+                out, regs[o[1]] = l[-1], l[:-1]
+            else:
+                out, regs[o[1]] = l[0], l[1:]
+        elif t == "contains":
+            out = o[2] in regs[o[1]]
+        elif t == "ior":
+            regs[o[1]] = addall(regs[o[1]], regs[o[2]])
+        elif t == "iorlist":
+            regs[o[1]] = addall(regs[o[1]], o[2])
+        elif t == "fromlist":
+            regs[o[1]] = addall([], o[2])
+        elif t == "or":
+            regs[o[1]] = addall(list(regs[o[2]]), regs[o[3]])
+        elif t == "and":
+            # collections.abc.Set.__and__ iterates `other`: order of the right operand
+            regs[o[1]] = [x for x in regs[o[3]] if x in regs[o[2]]]
+        elif t == "sub":
+            regs[o[1]] = [x for x in regs[o[2]] if x not in regs[o[3]]]
+        elif t == "subset":
+            regs[o[1]] = [x for x in regs[o[2]] if x not in o[3]]
+        elif t == "isub":
+            regs[o[1]] = [x for x in regs[o[1]] if x not in regs[o[2]]]
+        elif t == "iand":
+            regs[o[1]] = [x for x in regs[o[1]] if x in regs[o[2]]]
+        elif t == "eq":
+            # OrderedSet == OrderedSet is order sensitive (documented behaviour of the recipe the class follows)
+            out = regs[o[1]] == regs[o[2]]
+        elif t == "eqset":
+            out = set(regs[o[1]]) == set(o[2])
+        trace.append((out, [(list(l), list(reversed(l)), len(l)) for l in regs]))
+    return trace
+
+
+def os_keys_coq(l):
+    return vf.coq_list([vf.coq_N(x) for x in l])
+
+
+def os_ops_coq(ops):
+    out = []
+    for o in ops:
+        t = o[0]
+        if t == "add":
+            out.append("OAdd %d %s" % (o[1], vf.coq_N(o[2])))
+        elif t == "discard":
+            out.append("ODiscard %d %s" % (o[1], vf.coq_N(o[2])))
+        elif t == "pop":
+            out.append("OPop %d %s" % (o[1], vf.coq_bool(o[2])))
+        elif t == "contains":
+            out.append("OContains %d %s" % (o[1], vf.coq_N(o[2])))
+        elif t == "ior":
+            out.append("OIor %d %d" % (o[1], o[2]))
+        elif t == "iorlist":
+            out.append("OIorList %d %s" % (o[1], os_keys_coq(o[2])))
+        elif t == "fromlist":
+            out.append("OFromList %d %s" % (o[1], os_keys_coq(o[2])))
+        elif t == "or":
+            out.append("OOr %d %d %d" % (o[1], o[2], o[3]))
+        elif t == "and":
+            out.append("OAnd %d %d %d" % (o[1], o[2], o[3]))
+        elif t == "sub":
+            out.append("OSub %d %d %d" % (o[1], o[2], o[3]))
+        elif t == "subset":
+            out.append("OSubSet %d %d %s" % (o[1], o[2], os_keys_coq(o[3])))
+        elif t == "isub":
+            out.append("OIsub %d %d" % (o[1], o[2]))
+        elif t == "iand":
+            out.append("OIand %d %d" % (o[1], o[2]))
+        elif t == "eq":
+            out.append("OEq %d %d" % (o[1], o[2]))
+        elif t == "eqset":
+            out.append("OEqSet %d %s" % (o[1], os_keys_coq(o[2])))
+        else:
+            raise ValueError(t)
+    return vf.coq_list(out)
+
+
+def os_out_coq(out):
+    if out is None:
+        return "RNone"
+    if out == "KeyError":
+        return "RKeyError"
+    if out is True or out is False:
+        return "(RBool %s)" % vf.coq_bool(out)
+    return "(RKey %s)" % vf.coq_N(out)
+
+
+def os_trace_coq(trace):
+    steps = []
+    for out, obs in trace:
+        steps.append("(%s, %s)" % (os_out_coq(out), vf.coq_list(
+            ["(%s, %s, %s)" % (os_keys_coq(i), os_keys_coq(r), vf.coq_nat(n)) for (i, r, n) in obs])))
+    return vf.coq_list(steps)
+
+
+def os_bad(ops):
+    try:
+        return os_impl_trace(ops) != os_spec_trace(ops)
+    except Exception:
+        return True
+
+
+def os_check_one(ctx, ops):
+    try:
+        impl = os_impl_trace(ops)
+    except Exception as e:
+        small = shrink_ops(ops, os_bad)
+        ctx.violation("OrderedSet raised %r on history %r" % (e, small),
+                      {"container": "OrderedSet", "ops": tolist(small)}, klass=None)
+        return None
+    spec = os_spec_trace(ops)
+    if impl != spec:
+        small = shrink_ops(ops, os_bad)
+        ctx.violation("OrderedSet differs from the insertion-ordered list model on history %r: got %r, model says %r"
+                      % (small, os_impl_trace(small)[-1], os_spec_trace(small)[-1]),
+                      {"container": "OrderedSet", "ops": tolist(small), "impl": tolist(os_impl_trace(small)),
+                       "spec": tolist(os_spec_trace(small))}, klass=None)
+    return impl
+
+
+def run_orderedset(ctx, histories=None):
+    nseq = ctx.n(1500, 60000)
+    cases, metas = [], []
+    if histories is None:
+        histories = [gen_os_ops(ctx.rng, ctx.rng.choice([4, 8, 16, 30])) for _ in range(nseq)]
+    for ops in histories:
+        impl = os_check_one(ctx, ops)
+        if impl is None:
+            continue
+        spec = os_spec_trace(ops)
+        moved = any(o[0] in ("pop", "discard", "and", "sub", "isub", "iand", "or", "ior") for o in ops)
+        nontrivial = moved and any(n > 1 for (_, _, n) in impl[-1][1])
+        ctx.case(("os", totuple(ops)), nontrivial,
+                 sample={"container": "OrderedSet", "ops": tolist(ops), "final": [i for (i, _, _) in impl[-1][1]]})
+        ctx.count("os_ops", len(ops))
+        for o in ops:
+            ctx.count("os_" + o[0])
+        opsc = os_ops_coq(ops)
+        # (1) pointer model = implementation, step by step
+        cases.append("otrace_eqb (otrace oregs0 %s) %s" % (opsc, os_trace_coq(impl)))
+        metas.append(("model", ops))
+        # (2) Coq list specification (the right-hand side of C34_oset_refines) = python reference
+        cases.append("(let '(ls, outs) := srun %s in all2 keys_eqb ls %s && all2 oout_eqb outs %s)"
+                     % (opsc, vf.coq_list([os_keys_coq(i) for (i, _, _) in spec[-1][1]]) if spec else "[[]; []; []]",
+                        vf.coq_list([os_out_coq(o) for (o, _) in spec])))
+        metas.append(("spec", ops))
+    try:
+        bad = ctx.coq_failing(OS_HEADER, cases, name="os", shard=150)
+    except RuntimeError as e:
+        ctx.broken.append("correspondence:OrderedSet model does not evaluate")
+        ctx.notes.append(str(e))
+        return
+    ctx.cov["os_model_vs_impl_agree"] = sum(1 for m in metas if m[0] == "model") - sum(1 for i in bad if metas[i][0] == "model")
+    ctx.cov["os_coqspec_vs_pyspec_agree"] = sum(1 for m in metas if m[0] == "spec") - sum(1 for i in bad if metas[i][0] == "spec")
+    for i in bad[:5]:
+        if metas[i][0] == "model":
+            ctx.broken.append("correspondence:OrderedSetModel vs problog.util.OrderedSet on ops %r" % (metas[i][1],))
+        else:
+            ctx.broken.append("correspondence:Coq list specification srun vs python reference on ops %r" % (metas[i][1],))
+
+
+# ------------------------------------------------------------------ UHeap
+UH_ITEMS = list(range(6))
+
+
+def gen_uh_ops(rng, n):
+    """identity=True: UHeap(key=None), the key of an item is the item itself."""
+    identity = rng.random() < 0.15
+    ops = []
+    nkeys = rng.choice([3, 8, 8, 20])
+    for _ in range(n):
+        k = rng.random()
+        if k < 0.55:
+            it = rng.choice(UH_ITEMS)
+            ops.append(("push", it, it if identity else rng.randrange(nkeys)))
+        elif k < 0.70:
+            ops.append(("pop",))
+        elif k < 0.82:
+            ops.append(("popkey",))
+        elif k < 0.92:
+            ops.append(("peek",))
+        else:
+            ops.append(("len",))
+    if rng.random() < 0.5:   # drain at the end: non-decreasing keys
+        ops += [("popkey",)] * (len(UH_ITEMS) + 1)
+    return identity, ops
+
+
+def uh_impl_trace(identity, ops):
+    """-> list of (out, (heap list, [index.get(x) for x in items]))"""
+    from problog.util import UHeap
+    cur = {}
+    h = UHeap() if identity else UHeap(key=lambda it: cur[it])
+    trace = []
+    for o in ops:
+        t = o[0]
+        if t == "push":
+            cur[o[1]] = o[2]
+            out = ("bool", h.push(o[1]))
+        elif t == "pop":
+            try:
+                out = ("item", h.pop())
+            except AssertionError:
+                out = ("assert",)
+        elif t == "popkey":
+            try:
+                k, it = h.pop_with_key()
+                out = ("pair", k, it)
+            except AssertionError:
+                out = ("assert",)
+        elif t == "peek":
+            try:
+                out = ("item", h.peek())
+            except AssertionError:
+                out = ("assert",)
+        elif t == "len":
+            out = ("len", len(h))
+        else:
+            raise ValueError(t)
+        trace.append((out, ([tuple(e) for e in h._heap], [h._index.get(x) for x in UH_ITEMS])))
+    return trace
+
+
+def uh_judge(ops, trace):
+    """The property's own reference: dict item -> key.  Returns None or a description of the first violation."""
+    m = {}
+    last_popped = None       # keys popped since the last push must be non-decreasing
+    for step, (o, (out, (heap, index))) in enumerate(zip(ops, trace)):
+        t = o[0]
+        if t == "push":
+            if out != ("bool", o[1] not in m):
+                return "step %d push(%r) returned %r, item present before: %r" % (step, o[1], out, o[1] in m)
+            m[o[1]] = o[2]
+            last_popped = None
+        elif t in ("pop", "popkey", "peek"):
+            if not m:
+                if out != ("assert",):
+                    return "step %d %s on empty heap returned %r" % (step, t, out)
+            else:
+                if out[0] not in ("item", "pair"):
+                    return "step %d %s returned %r on a non-empty heap" % (step, t, out)
+                it = out[-1]
+                if it not in m:
+                    return "step %d %s returned %r which is not in the heap" % (step, t, it)
+                if m[it] != min(m.values()):
+                    return "step %d %s returned item %r with key %r but the minimal key is %r" % (step, t, it, m[it], min(m.values()))
+                if out[0] == "pair" and out[1] != m[it]:
+                    return "step %d pop_with_key returned key %r for item %r whose key is %r" % (step, out[1], it, m[it])
+                if t != "peek":
+                    if last_popped is not None and m[it] < last_popped:
+                        return "step %d popped key %r after key %r" % (step, m[it], last_popped)
+                    last_popped = m[it]
+                    del m[it]
+        elif t == "len":
+            if out != ("len", len(m)):
+                return "step %d len returned %r, expected %d" % (step, out, len(m))
+        # the observable content is exactly the map
+        if sorted((it, k) for (k, it) in heap) != sorted(m.items()):
+            return "step %d content %r differs from expected bindings %r" % (step, heap, sorted(m.items()))
+    return None
+
+
+def uh_ops_coq(ops):
+    out = []
+    for o in ops:
+        t = o[0]
+        if t == "push":
+            out.append("UPush %s %s" % (vf.coq_N(o[1]), vf.coq_N(o[2])))
+        else:
+            out.append({"pop": "UPop", "popkey": "UPopKey", "peek": "UPeek", "len": "ULenOp"}[t])
+    return vf.coq_list(out)
+
+
+def uh_out_coq(out):
+    if out[0] == "bool":
+        return "(UBool %s)" % vf.coq_bool(out[1])
+    if out[0] == "item":
+        return "(UItem %s)" % vf.coq_N(out[1])
+    if out[0] == "pair":
+        return "(UPair %s %s)" % (vf.coq_N(out[1]), vf.coq_N(out[2]))
+    if out[0] == "assert":
+        return "UAssert"
+    return "(ULen %s)" % vf.coq_nat(out[1])
+
+
+def uh_trace_coq(trace):
+    steps = []
+    for out, (heap, index) in trace:
+        steps.append("(%s, (%s, %s))" % (
+            uh_out_coq(out),
+            vf.coq_list(["(%s, %s)" % (vf.coq_N(k), vf.coq_N(it)) for (k, it) in heap]),
+            vf.coq_list([vf.coq_option(None if i is None else vf.coq_nat(i)) for i in index])))
+    return vf.coq_list(steps)
+
+
+def uh_bad(identity):
+    def bad(ops):
+        try:
+            return uh_judge(ops, uh_impl_trace(identity, ops)) is not None
+        except Exception:
+            return True
+    return bad
+
+
+def uh_check_one(ctx, identity, ops):
+    try:
+        impl = uh_impl_trace(identity, ops)
+    except Exception as e:
+        small = shrink_ops(ops, uh_bad(identity))
+        ctx.violation("UHeap raised %r on history %r" % (e, small),
+                      {"container": "UHeap", "identity_key": identity, "ops": tolist(small)}, klass=None)
+        return None
+    why = uh_judge(ops, impl)
+    if why is not None:
+        small = shrink_ops(ops, uh_bad(identity))
+        ctx.violation("UHeap violates the min-key map model on history %r: %s"
+                      % (small, uh_judge(small, uh_impl_trace(identity, small))),
+                      {"container": "UHeap", "identity_key": identity, "ops": tolist(small)}, klass=None)
+    return impl
+
+
+def run_uheap(ctx, histories=None):
+    nseq = ctx.n(1500, 60000)
+    cases, metas = [], []
+    if histories is None:
+        histories = [gen_uh_ops(ctx.rng, ctx.rng.choice([4, 8, 16, 30])) for _ in range(nseq)]
+    univ = vf.coq_list([vf.coq_N(x) for x in UH_ITEMS])
+    for identity, ops in histories:
+        impl = uh_check_one(ctx, identity, ops)
+        if impl is None:
+            continue
+        updates = sum(1 for (o, (out, _)) in zip(ops, impl) if o[0] == "push" and out == ("bool", False))
+        pops = sum(1 for (o, (out, _)) in zip(ops, impl) if o[0] in ("pop", "popkey") and out != ("assert",))
+        ctx.case(("uh", identity, totuple(ops)), updates > 0 and pops > 1,
+                 sample={"container": "UHeap", "identity_key": identity, "ops": tolist(ops)})
+        ctx.count("uh_ops", len(ops))
+        ctx.count("uh_push_update", updates)
+        ctx.count("uh_pops_nonempty", pops)
+        ctx.count("uh_maxlen_%d" % max([len(h) for (_, (h, _)) in impl] + [0]))
+        for o in ops:
+            ctx.count("uh_" + o[0])
+        opsc = uh_ops_coq(ops)
+        # (1) array+index model = implementation (full _heap and _index after every step)
+        cases.append("utrace_eqb (utrace %s uheap_empty %s) %s" % (univ, opsc, uh_trace_coq(impl)))
+        metas.append(("model", ops))
+        # (2) the answers of the implementation are accepted by the Coq specification of C34_heap_inv
+        cases.append("sp_accepts [] %s %s" % (opsc, vf.coq_list([uh_out_coq(o) for (o, _) in impl])))
+        metas.append(("spec", ops))
+    try:
+        bad = ctx.coq_failing(UH_HEADER, cases, name="uh", shard=150)
+    except RuntimeError as e:
+        ctx.broken.append("correspondence:UHeap model does not evaluate")
+        ctx.notes.append(str(e))
+        return
+    ctx.cov["uh_model_vs_impl_agree"] = sum(1 for m in metas if m[0] == "model") - sum(1 for i in bad if metas[i][0] == "model")
+    ctx.cov["uh_impl_accepted_by_coq_spec"] = sum(1 for m in metas if m[0] == "spec") - sum(1 for i in bad if metas[i][0] == "spec")
+    for i in bad[:5]:
+        if metas[i][0] == "model":
+            ctx.broken.append("correspondence:UHeapModel vs problog.util.UHeap on ops %r" % (metas[i][1],))
+        else:
+            ctx.broken.append("correspondence:answers of problog.util.UHeap rejected by the Coq specification sp_accepts on ops %r" % (metas[i][1],))
+
+
+# ------------------------------------------------------------------ driver
 def run(ctx):
-    ctx.cov["rule"] = ("random operation histories over 3 container registers (indices clustered at 32-bit block boundaries); "
-                       "a history is non-trivial when it contains a binary set operation and ends with a register of >1 members; "
+    ctx.cov["rule"] = ("random operation histories; BitVector: 3 registers, indices clustered at 32-bit block boundaries; "
+                       "OrderedSet: 3 registers, keys 0..5, all of add/discard/pop(first|last)/in/|=/|/&/-/-=/&=/==/OrderedSet(list), aliased operands allowed; "
+                       "UHeap: items 0..5, keys from 3..20 values (frequent ties and key updates), optional final drain, 15% with key=None. "
+                       "non-trivial: BitVector history with a binary operation ending with >1 members; OrderedSet history with a removing/combining "
+                       "operation ending with a register of >1 elements; UHeap history with at least one key update and two successful pops; "
                        "distinct = distinct op sequences")
     ctx.assumptions += ["hand-written Gallina models correspond to problog/util.py only as far as the sampled histories show",
-                        "CPython ints are unbounded naturals (N)"]
+                        "CPython ints are unbounded naturals (N); dict preserves insertion order (CPython >= 3.7)",
+                        "UHeap keys are totally ordered (modelled as N); the key function may return a different key at each push",
+                        "collections.abc.Set/MutableSet mixins as in the running CPython (3.12) are modelled by hand"]
     ctx.prove("C34/Props.v")
+    ctx.log("proved")
+    if ctx.replay:
+        rep = ctx.replay.get("replay", ctx.replay)
+        cont = rep.get("container")
+        ops = [totuple(o) for o in rep.get("ops", [])]
+        ops = [tuple(list(o[:-1]) + [list(o[-1])]) if o and isinstance(o[-1], tuple) else o for o in ops]
+        if cont == "BitVector":
+            run_bitvector(ctx, [ops])
+        elif cont == "OrderedSet":
+            run_orderedset(ctx, [ops])
+        elif cont == "UHeap":
+            run_uheap(ctx, [(bool(rep.get("identity_key")), ops)])
+        else:
+            ctx.broken.append("harness:replay file names no container")
+        return
     run_bitvector(ctx)
+    ctx.log("BitVector done")
+    run_orderedset(ctx)
+    ctx.log("OrderedSet done")
+    run_uheap(ctx)
